@@ -12,6 +12,6 @@ Extraction "C05_model.ml" wire_anchor
   static_set_ctor copy_ptrs_guard extents_eq linalg_copy_guard linalg_swap_guard linalg_add_guard linalg_mvp_guard
   layout_stride_stride_guard bitset_str_guard to_string_guard format_escaped_guard
   pre_range_fits pre_both_nonnull pre_bitset_str pre_to_string array_front array_back array0_index opt_arrow exp_arrow
-  pre_day_month pre_opt_arrow pre_exp_arrow
+  pre_opt_arrow pre_exp_arrow
   str_step str_pre_ok str_make str_ctor_fill str_size str_index str_front str_back
   str_replace str_replace_ptr str_replace_cstr str_replace5.
